@@ -83,12 +83,25 @@ def run_shard(ctx):
                                 "perturb_seed": r2.randrange(1 << 30), "files": [str(paths[i]) for i in sub], "group": "rf%d" % gi})
                 cid += 1
         # directory-set predicate: nested directory as extra lookup / same-name directory with collisions disallowed
-        kind = r2.choice(["nested-child", "nested-parent", "same-name", "same-name-case", "same-name-allowed", "same-dir-twice"])
+        kind = r2.choice(["nested-child", "nested-child-with-sibling", "nested-child-with-sibling", "sibling-prefix-name", "nested-parent", "same-name",
+                          "same-name-case", "same-name-allowed", "same-dir-twice"])
         extra, allow, expect_reject = [], True, False
         if kind == "nested-child":
             sub = base / ns["roots"][0]["dir"] / "zz_nested"
             sub.mkdir(parents=True, exist_ok=True)  # an empty directory: nothing is added to the root namespace
             extra, expect_reject = [str(sub)], True
+        elif kind in ("nested-child-with-sibling", "sibling-prefix-name"):
+            # an unrelated directory whose path is the root's path followed by a character that sorts before '/'
+            rootp = base / ns["roots"][0]["dir"]
+            sib = rootp.parent / (rootp.name + r2.choice(["-legacy", ".old", " (copy)", "+", ",x", "!"])) / "sibns"
+            sib.mkdir(parents=True, exist_ok=True)
+            (sib / "Sib.1.0.dsdl").write_text("@sealed\n")
+            extra = [str(sib)]
+            if kind == "nested-child-with-sibling":
+                sub = rootp / r2.choice(["zz_nested", "aa_nested", "sub/deeper"])
+                sub.mkdir(parents=True, exist_ok=True)
+                extra = r2.sample([str(sub), str(sib)], 2)
+                expect_reject = True
         elif kind == "nested-parent":
             parent = (base / ns["roots"][0]["dir"]).parent
             if parent != base and parent.name.isidentifier():
